@@ -178,49 +178,122 @@ where
         C: PoolableConnection<B>,
     {
         let mut inner = self.inner.lock();
-        let (tx, rx) = tokio::sync::oneshot::channel();
-        let mut connector: Option<Connector<T, P, B>> = Some(connector);
         let token = self.keys.lock().insert(key);
 
-        if let Some(mut connection) = inner.pop(token) {
+        match inner.join(token, multiplex) {
+            Join::Connection { connection, shared } => {
+                // Nothing will be sent to a checkout which already has its connection.
+                let (_, rx) = tokio::sync::oneshot::channel();
+                Checkout::new(
+                    token,
+                    self.as_ref(),
+                    rx,
+                    None,
+                    Some(connection),
+                    shared,
+                    false,
+                    false,
+                    multiplex,
+                    &inner.config,
+                )
+            }
+            // The connector is kept: if the attempt in progress ends without a connection,
+            // this checkout is released and joins the pool again.
+            Join::Wait(rx) => Checkout::new(
+                token,
+                self.as_ref(),
+                rx,
+                Some(connector),
+                None,
+                false,
+                true,
+                false,
+                multiplex,
+                &inner.config,
+            ),
+            Join::Connect {
+                waiter,
+                owns_attempt,
+            } => Checkout::new(
+                token,
+                self.as_ref(),
+                waiter,
+                Some(connector),
+                None,
+                false,
+                false,
+                owns_attempt,
+                multiplex,
+                &inner.config,
+            ),
+        }
+    }
+}
+
+/// How a checkout takes part in the pool, see [`PoolInner::join`].
+pub(in crate::client) enum Join<C, B>
+where
+    C: PoolableConnection<B>,
+    B: Send + 'static,
+{
+    /// An idle connection was available. `shared` is set when the pool kept its own
+    /// handle to the (multiplexed) connection.
+    Connection { connection: C, shared: bool },
+
+    /// A multiplexed connection attempt is in progress elsewhere: wait for it.
+    Wait(tokio::sync::oneshot::Receiver<Pooled<C, B>>),
+
+    /// Connect, and listen for connections returned to the pool in the meantime.
+    /// `owns_attempt` is set when other checkouts will wait for this attempt.
+    Connect {
+        waiter: tokio::sync::oneshot::Receiver<Pooled<C, B>>,
+        owns_attempt: bool,
+    },
+}
+
+impl<C, B> PoolInner<C, B>
+where
+    C: PoolableConnection<B>,
+    B: Send + 'static,
+{
+    pub(in crate::client) fn join(&mut self, token: Token, multiplex: bool) -> Join<C, B> {
+        if let Some(mut connection) = self.pop(token) {
             trace!("connection found in pool");
-            connector = None;
 
             // A multiplexed connection stays in the pool while this checkout is pending, so that
             // other checkouts keep sharing it instead of dialing (or losing it if this one is dropped).
             let mut shared = false;
             if let Some(reused) = connection.reuse() {
-                inner.idle.entry(token).or_default().push(connection);
+                self.idle.entry(token).or_default().push(connection);
                 connection = reused;
                 shared = true;
             }
 
-            return Checkout::new(
-                token,
-                self.as_ref(),
-                rx,
-                connector,
-                Some(connection),
-                shared,
-                &inner.config,
-            );
+            return Join::Connection { connection, shared };
         }
 
         trace!("checkout interested in pooled connections");
-        inner.waiting.entry(token).or_default().push_back(tx);
+        let (tx, rx) = tokio::sync::oneshot::channel();
+        let in_progress = self.connecting.contains(&token);
+        self.waiting
+            .entry(token)
+            .or_default()
+            .push_back((tx, in_progress));
 
-        if inner.connecting.contains(&token) {
+        if in_progress {
             trace!("connection in progress elsewhere, will wait");
-            connector = None;
-            Checkout::new(token, self.as_ref(), rx, connector, None, false, &inner.config)
+            Join::Wait(rx)
         } else {
             if multiplex {
                 // Only block new connection attempts if we can multiplex on this one.
                 trace!("checkout of multiplexed connection, other connections should wait");
-                inner.connecting.insert(token);
+                self.connecting.insert(token);
             }
             trace!("connecting to host");
-            Checkout::new(token, self.as_ref(), rx, connector, None, false, &inner.config)
+            Join::Connect {
+                waiter: rx,
+                owns_attempt: multiplex,
+            }
         }
     }
 }
@@ -243,7 +316,7 @@ where
                 waiting_live: inner
                     .waiting
                     .get(&token)
-                    .map(|w| w.iter().filter(|tx| !tx.is_closed()).count())
+                    .map(|w| w.iter().filter(|(tx, _)| !tx.is_closed()).count())
                     .unwrap_or(0),
                 connecting: inner.connecting.contains(&token),
             })
@@ -346,7 +419,9 @@ where
     config: Config,
 
     connecting: HashSet<Token>,
-    waiting: HashMap<Token, VecDeque<Sender<Pooled<C, B>>>>,
+    /// Checkouts interested in a connection. The flag marks waiters which do not dial themselves
+    /// because they wait for the in-flight (multiplexed) connection attempt of another checkout.
+    waiting: HashMap<Token, VecDeque<(Sender<Pooled<C, B>>, bool)>>,
 
     idle: HashMap<Token, IdleConnections<C, B>>,
 }
@@ -365,10 +440,18 @@ where
         }
     }
 
+    /// The in-flight connection attempt for this token has ended.
+    ///
+    /// Must only be called by the checkout which registered the attempt. Checkouts which are
+    /// still waiting for that attempt (it failed, was given up, or its connection could not be
+    /// shared with them) are released, so that they join the pool again.
     pub(in crate::client) fn cancel_connection(&mut self, token: Token) {
         let existed = self.connecting.remove(&token);
         if existed {
             trace!("pending connection cancelled");
+            if let Some(waiters) = self.waiting.get_mut(&token) {
+                waiters.retain(|(_, depends_on_attempt)| !depends_on_attempt);
+            }
         }
     }
 }
@@ -393,12 +476,13 @@ where
     B: Send + 'static,
 {
     fn push(&mut self, token: Token, mut connection: C, pool_ref: PoolRef<C, B>) {
-        self.connecting.remove(&token);
+        // NOTE: the attempt in progress (if any) is finished by the checkout which registered it,
+        // see `cancel_connection`. A connection arriving from elsewhere says nothing about it.
 
         if let Some(waiters) = self.waiting.get_mut(&token) {
             trace!(waiters=%waiters.len(), ?token, "walking waiters");
 
-            while let Some(waiter) = waiters.pop_front() {
+            while let Some((waiter, _)) = waiters.pop_front() {
                 if waiter.is_closed() {
                     trace!("skipping closed waiter");
                     continue;
@@ -1041,7 +1125,9 @@ mod tests {
         drop(start);
         drop(pool);
 
-        assert!(checkout.now_or_never().unwrap().is_err());
+        // The attempt this checkout was waiting for has been given up: the checkout is
+        // released and connects on its own instead of failing (or waiting forever).
+        assert!(checkout.now_or_never().unwrap().is_ok());
     }
 
     #[tokio::test]
